@@ -10,7 +10,7 @@ Line protocol for C04 (see harness/c04/main.go):
   obs: ack <none|ok|fail> acks <n> att <none|src|tgt|fwd> on <mapping of the bridge holding the requester|-> … att <none|src|tgt|fwd> data <0|1> ret <switch|err|pending>
 The clock is 1000; exp 1 = expired at 500, exp 2 = expires at 2000.  This node is node-A, the other node-B.
 `ret` is compared between model and implementation but is not part of the property.
-  rmw <usage|stats|status>   obs: revoked <0|1> ack <..> att <..> data <0|1>
+  rmw <usage|usage-read1|usage-read2|stats|stats-read1|status|status-read1>   obs: revoked <0|1> ack <..> att <..> data <0|1>
     a whole-record update of mapping M is between its read and its write (gated store) when the target client revokes M;
     afterwards the target client presents M's secret for the waiting tunnel.
   e2e      obs: secret <set|empty> src <ack> pushed <0|1> leak <0|1> tgt <ack> data <0|1>
@@ -124,7 +124,7 @@ def parseObs : List String → Option Obs
 /-- `rmw <usage|stats|status>`: the writer's pending whole-record write and a revocation; under the per-mapping
 lock the revocation waits for the pending write, so the order is writer, then revocation. -/
 def rmwWriter : String → Option Update
-  | "usage" => some .usage | "stats" => some .stats | "status" => some (.status "active") | _ => none
+  | "usage" => some .usage | "usage-read1" => some .usage | "usage-read2" => some .usage | "stats" => some .stats | "stats-read1" => some .stats | "status-read1" => some (.status "active") | "status" => some (.status "active") | _ => none
 
 def rmwWorld (u : Update) : World :=
   { mappings := [runSerial [u, .revoke] ⟨"M", 11, 22, "s3cretM", "active", false, none⟩], now := 1000, nodeID := "node-A" }
